@@ -572,7 +572,7 @@ package machine
 // In every target the resolver computes, a group whose members Remove one
 // another and of which at most one member is an Add target has at most one member.
 //@ lemma group_exclusive(rr *DefaultRelationsResolver, t *Transition, statesToSet S, index S, g S, a string, b string)
-//@   props C19
+//@   props C19 C15
 //@   requires nn:     rr != nil && t != nil && t.Machine != nil && t.Mutation != nil
 //@   requires locks:  unlocked(t.Machine.schemaMx)
 //@   requires known:  Known(t.Machine, statesToSet)
@@ -587,3 +587,5 @@ package machine
 //@ pred RefsDefinedOrException(schema Schema) := forall s, x string :: has(schema, s) && (mem(schema[s].Add, x) || mem(schema[s].Require, x) || mem(schema[s].Remove, x) || mem(schema[s].After, x)) ==> has(schema, x) || x == "Exception"
 //@ pred NamesAgree(schema Schema, names S) := nodup(names) && (forall x string :: has(schema, x) ==> mem(names, x)) && (forall x string :: mem(names, x) ==> has(schema, x) || x == "Exception")
 //@ pred RequireRanked(schema Schema, rank map[string]int) := forall s, x string :: has(schema, s) && mem(schema[s].Require, x) && has(schema, x) ==> rank[x] < rank[s]
+
+// group_exclusive also serves C15 (pool-status / pool-normalisation / work-status groups)
